@@ -82,8 +82,10 @@ static void edit(PDU* root, Rng& r, std::string& log) {
 
 // ---- option shape enumeration -----------------------------------------------------------------------------
 static void option_shapes(long idx, Rng& r) {
-    static const u32 lens[] = {0, 1, 2, 3, 6, 7, 8, 9, 14, 30, 38};
-    u32 code = (u32)(idx % 256); u32 len = lens[(idx / 256) % 11]; u32 which = (u32)((idx / (256 * 11)) % 7); bool payload = ((idx / (256 * 11 * 7)) % 2) == 0;
+    static const u32 lens[] = {0, 1, 2, 3, 6, 7, 8, 9, 14, 30, 38, 62, 254, 262, 510};
+    u32 code = (u32)(idx % 256); u32 len = lens[(idx / 256) % 15]; u32 which = (u32)((idx / (256 * 15)) % 7); bool payload = ((idx / (256 * 15 * 7)) % 2) == 0;
+    if (len > 38 && (which == 0 || which == 1)) len = 38;          // TCP/IP option space
+    if (len > 255 && (which == 2 || which == 4)) len = 255;       // one-octet length fields
     Bytes data = r.bytes(len); std::unique_ptr<PDU> root; std::string what;
     auto with_payload = [&](PDU* l) { if (payload) { Bytes b = r.bytes(1 + r.below(20)); l->inner_pdu(new RawPDU(b.data(), (u32)b.size())); } };
     try {
